@@ -1286,7 +1286,16 @@ int32_t jls_core_repair_fsr(struct jls_core_s * self, uint16_t signal_id) {
     while (level > 0) {
         JLS_LOGI("repair_fsr signal_id %d, level %d, offset %" PRIi64, (int) signal_id, (int) level, offset);
 
+        if (NULL == lvl) {
+            JLS_LOGE("repair_fsr signal_id %d: no level buffer.  Cannot repair.", (int) signal_id);
+            break;
+        }
         if (jls_core_rd_chunk(self)) {  // read index
+            break;
+        }
+        if ((self->chunk_cur.hdr.tag != JLS_TAG_TRACK_FSR_INDEX)
+                || (self->chunk_cur.hdr.payload_length > (sizeof(struct jls_fsr_index_s) + lvl->index_entries * sizeof(int64_t)))) {
+            JLS_LOGE("repair_fsr signal_id %d: unexpected index chunk.  Cannot repair.", (int) signal_id);
             break;
         }
         index_head = self->chunk_cur;
@@ -1295,10 +1304,21 @@ int32_t jls_core_repair_fsr(struct jls_core_s * self, uint16_t signal_id) {
         if (jls_core_rd_chunk(self)) {  // read summary
             break;
         }
+        if ((self->chunk_cur.hdr.tag != JLS_TAG_TRACK_FSR_SUMMARY)
+                || (self->chunk_cur.hdr.payload_length > (sizeof(struct jls_fsr_f32_summary_s)
+                    + (((size_t) lvl->summary_entries) * lvl->summary->header.entry_size_bits) / 8))) {
+            JLS_LOGE("repair_fsr signal_id %d: unexpected summary chunk.  Cannot repair.", (int) signal_id);
+            break;
+        }
+        uint16_t summary_entry_size_bits = lvl->summary->header.entry_size_bits;
         track->index_head[level] = index_head;
         offset_index_next = index_head.hdr.item_next;
         track->summary_head[level] = self->chunk_cur;
         memcpy(lvl->summary, self->buf->start, self->chunk_cur.hdr.payload_length);
+        if (lvl->summary->header.entry_size_bits != summary_entry_size_bits) {
+            JLS_LOGE("repair_fsr signal_id %d: invalid summary entry size.  Cannot repair.", (int) signal_id);
+            return JLS_ERROR_PARAMETER_INVALID;
+        }
 
         struct jls_fsr_index_s * r = lvl->index;
         if (r->header.entry_size_bits != (sizeof(r->offsets[0]) * 8)) {
@@ -1330,6 +1350,13 @@ int32_t jls_core_repair_fsr(struct jls_core_s * self, uint16_t signal_id) {
                     JLS_LOGE("Could not seek to lower-level index.  Cannot repair.");
                     break;
                 }
+                if (level > 0) {
+                    // continue with the buffers of the lower level
+                    if (NULL == signal_info->track_fsr->level[level]) {
+                        jls_core_fsr_summary_level_alloc(signal_info->track_fsr, (uint8_t) level);
+                    }
+                    lvl = signal_info->track_fsr->level[level];
+                }
             } else {
                 JLS_LOGE("Empty index.  Cannot repair.");
                 return JLS_ERROR_NOT_SUPPORTED;
@@ -1341,6 +1368,18 @@ int32_t jls_core_repair_fsr(struct jls_core_s * self, uint16_t signal_id) {
     jls_core_fsr_sample_buffer_alloc(signal_info->track_fsr);
     while (offset) {
         if (jls_raw_chunk_seek(self->raw, offset) || jls_core_rd_chunk(self)) {
+            break;
+        }
+        if ((self->chunk_cur.hdr.tag != JLS_TAG_TRACK_FSR_DATA)
+                || (self->chunk_cur.hdr.chunk_meta != signal_id)
+                || (self->buf->length < sizeof(struct jls_fsr_data_s))
+                || (self->buf->length > (sizeof(struct jls_fsr_data_s)
+                    + (((size_t) signal_info->signal_def.samples_per_data) * jls_datatype_parse_size(signal_info->signal_def.data_type)) / 8))) {
+            JLS_LOGE("repair_fsr signal_id %d: unexpected data chunk.  Cannot repair.", (int) signal_id);
+            break;
+        }
+        if (((struct jls_fsr_data_s *) self->buf->start)->header.entry_count > signal_info->signal_def.samples_per_data) {
+            JLS_LOGE("repair_fsr signal_id %d: invalid data chunk entry count.  Cannot repair.", (int) signal_id);
             break;
         }
         memcpy(signal_info->track_fsr->data, self->buf->start, self->buf->length);
